@@ -22,6 +22,7 @@ type Config struct {
 	MapOrderMax   int   // explore all iteration orders for maps with <= this many entries
 	Params        map[string]int64
 	Trace         bool
+	NoIfConv      bool // disable if-conversion (every symbolic branch forks)
 	Profile       map[string]int // if non-nil: SSA instructions per function (single worker only)
 }
 
@@ -70,6 +71,8 @@ type Outcome struct {
 	Funcs      map[string]int
 	Stubs      map[string]int
 	Unknowns   int
+	IfConv     int // branches merged by if-conversion on this path
+	Forks      map[string]int
 	Notes      []string
 	Model      map[string]uint64 // model of the full path condition (filled on request)
 }
@@ -287,6 +290,9 @@ func (m *Machine) decide(cond value, why string) bool {
 	}
 	if ro != smt.Unsat {
 		m.queueAlt(Decision{Kind: 'b', Choice: 1 - choice, Known: ro == smt.Sat, Model: omodel})
+		if m.out.Forks != nil {
+			m.out.Forks[why]++
+		}
 	}
 	m.record(Decision{Kind: 'b', Choice: choice})
 	if cur {
